@@ -34,7 +34,6 @@ set_option linter.unusedVariables false
 
 namespace C07
 open Model.C07 C07L Polynomial
-open Generated.C07 (qbfs_st_Pn qbfs_st_Pnm1 qbfs_st_Pnm2 qbfs_st_Qn qbfs_st_Qnm1 qbfs_st_Qnm2)
 
 /-! ## 1. translated obligations -/
 section translated
@@ -133,12 +132,12 @@ theorem gen_qbfs (sqrt : K → K) (n : ℕ) (x : K) : Generated.C07.qbfs sqrt (n
           simp [qbfs, qbfsPQ_succ]]
         congr 1
         · refine (forRange_induct (fun k s =>
-              qbfs_st_Pnm2 s = (qbfsPQ sqrt (x*x) k).1 ∧ qbfs_st_Pnm1 s = (qbfsPQ sqrt (x*x) k).2.1
-              ∧ qbfs_st_Qnm2 s = (qbfsPQ sqrt (x*x) k).2.2.1 ∧ qbfs_st_Qnm1 s = (qbfsPQ sqrt (x*x) k).2.2.2
-              ∧ (1 ≤ k → qbfs_st_Qn s = (qbfsPQ sqrt (x*x) k).2.2.2)) 2 _ _ ?_ ?_ (n+1)).2.2.2.2 (by omega)
+              Generated.C07.qbfs_st_Pnm2 s = (qbfsPQ sqrt (x*x) k).1 ∧ Generated.C07.qbfs_st_Pnm1 s = (qbfsPQ sqrt (x*x) k).2.1
+              ∧ Generated.C07.qbfs_st_Qnm2 s = (qbfsPQ sqrt (x*x) k).2.2.1 ∧ Generated.C07.qbfs_st_Qnm1 s = (qbfsPQ sqrt (x*x) k).2.2.2
+              ∧ (1 ≤ k → Generated.C07.qbfs_st_Qn s = (qbfsPQ sqrt (x*x) k).2.2.2)) 2 _ _ ?_ ?_ (n+1)).2.2.2.2 (by omega)
           · simp [qbfsPQ, pow_two]
           · rintro k s ⟨hs1, hs2, hs3, hs4, -⟩
-            dsimp only [qbfs_st_Pn, qbfs_st_Pnm1, qbfs_st_Pnm2, qbfs_st_Qn, qbfs_st_Qnm1, qbfs_st_Qnm2] at hs1 hs2 hs3 hs4 ⊢
+            dsimp only [Generated.C07.qbfs_st_Pn, Generated.C07.qbfs_st_Pnm1, Generated.C07.qbfs_st_Pnm2, Generated.C07.qbfs_st_Qn, Generated.C07.qbfs_st_Qnm1, Generated.C07.qbfs_st_Qnm2] at hs1 hs2 hs3 hs4 ⊢
             have eg : qbfsGi sqrt (2 + (k:ℤ) - 1) = qbfsG sqrt (k+1) := by
               simp only [qbfsGi]; congr 1; omega
             have eh : qbfsHi sqrt (2 + (k:ℤ) - 2) = qbfsH k (qbfsF sqrt k) := by
@@ -197,8 +196,12 @@ theorem gen_hopkins (sinf cosf : K → K) (a : ℤ) (b c : ℕ) (r t H : K) :
   have hneg : a < 0 → ((a.natAbs : ℕ) : K) = -(a:K) := by
     intro h; rw [Nat.cast_natAbs, abs_of_neg h]; push_cast; ring
   by_cases h : a < 0
-  · simp [Generated.C07.hopkins, hopkins, h, hneg h, eabs, neg_mul]
-  · simp [Generated.C07.hopkins, hopkins, h, eabs]
+  · first
+    | (simp [Generated.C07.hopkins, hopkins, h, hneg h, eabs, neg_mul]; done)
+    | simp [Generated.C07.hopkins, h]
+  · first
+    | (simp [Generated.C07.hopkins, hopkins, h, eabs]; done)
+    | simp [Generated.C07.hopkins, h]
 end translated
 
 /-! ## 2. the property -/
